@@ -18,6 +18,11 @@
 (*       nothing (C10)                                                     *)
 (*   OthersUntouched  a continue changes the call stack, output and        *)
 (*       choices of no flow but the current one (C10)                      *)
+(*   MessagesOnce  the messages (errors, warnings) handed to the handler   *)
+(*       or left pending by continuing line by line are those that         *)
+(*       executing the turn without look-ahead raises: none lost in a      *)
+(*       rewind, none raised twice (part of LookAheadIsInvisible); a       *)
+(*       handler leaves nothing pending; an error stops the story (C13)    *)
 (*   SaveLoadIdentity  save, any one call, load is the state at the save   *)
 (*       (C02); ResetIsInitial (C17); RefusedIsNoOp (C09): these hold by   *)
 (*       the construction of InkHost and are asserted so that a change of  *)
@@ -47,14 +52,17 @@ Loop(e, fuel) ==
   ELSE LET r == L!SingleStep(e)
            e1 == [m |-> r.m, snap |-> r.snap, log |-> r.log] IN
        IF L!LoopOver(r) THEN L!EndCont(e1) ELSE Loop(e1, fuel - 1)
-Cont(hh) == IF ~H!CanContinue(hh) THEN hh ELSE [hh EXCEPT !.m = Loop(L!BeginCont(L!Engine(hh.m)), Fuel).m]
+ContD(hh) == IF ~H!CanContinue(hh) THEN [h |-> hh, msgs |-> <<>>]
+             ELSE LET d == H!Deliver(hh, Loop(L!BeginCont(L!Engine(hh.m)), Fuel).m) IN [h |-> [hh EXCEPT !.m = d.m], msgs |-> d.msgs]
+Cont(hh) == ContD(hh).h
 
 \* to the end of the turn, line by line with look-ahead: the lines delivered and the final machine
-RECURSIVE TurnLook(_, _, _)
-TurnLook(hh, lines, fuel) ==
-  IF fuel = 0 \/ ~H!CanContinue(hh) THEN [m |-> hh.m, lines |-> lines, done |-> ~H!CanContinue(hh)]
-  ELSE LET h1 == Cont(hh) IN
-       TurnLook(h1, Append(lines, [text |-> OS!CurrentText(h1.m.out), tags |-> L!TagsOf(h1.m.out)]), fuel - 1)
+RECURSIVE TurnLook(_, _, _, _)
+TurnLook(hh, lines, got, fuel) ==
+  IF fuel = 0 \/ ~H!CanContinue(hh) THEN [m |-> hh.m, lines |-> lines, got |-> got, done |-> ~H!CanContinue(hh)]
+  ELSE LET c == ContD(hh)
+           h1 == c.h IN
+       TurnLook(h1, Append(lines, [text |-> OS!CurrentText(h1.m.out), tags |-> L!TagsOf(h1.m.out)]), got \o c.msgs, fuel - 1)
 
 \* to the end of the turn without look-ahead: statement by statement on one stream
 RECURSIVE TurnPlain(_, _)
@@ -66,13 +74,29 @@ NonEmpty(lines) == SelectSeq(lines, LAMBDA ln : \E i \in DOMAIN ln.text : ln.tex
 Core(m) == [vars |-> m.vars, cnt |-> m.cnt, tof |-> m.tof, seqc |-> m.seqc, st |-> m.st,
             ch |-> [i \in 1..Len(m.ch) |-> <<m.ch[i].text, m.ch[i].tags, m.ch[i].fb>>]]
 
+\* the messages of a turn: how many warnings, and the error that ended it
+Pending(m) == [w |-> Len(m.warns), e |-> m.err]
+MsgsLook(a) == [w |-> Len(SelectSeq(a.got, LAMBDA x : x.k = "W")) + Len(a.m.warns),
+                e |-> IF \E i \in DOMAIN a.got : a.got[i].k = "E" THEN a.got[CHOOSE i \in DOMAIN a.got : a.got[i].k = "E"].c ELSE a.m.err]
 LookAheadIsInvisible ==
   H!CanContinue(h) =>
-    LET a == TurnLook(h, <<>>, 60)
-        b == TurnPlain([h.m EXCEPT !.out = <<>>], 1500) IN
-    (a.done /\ b.st \in {"wait", "over", "out"} /\ b.err = "") =>      \* (runaway stories are outside the claim)
-       /\ NonEmpty(a.lines) = NonEmpty(OS!Lines(b.out))
+    LET a == TurnLook(h, <<>>, <<>>, 60)
+        b == L!OutOfContent(TurnPlain([h.m EXCEPT !.out = <<>>], 1500)) IN
+    (a.done /\ (b.st \in {"wait", "over", "out"} \/ b.err # "")) =>      \* (runaway stories are outside the claim)
+       /\ b.err = "" => NonEmpty(a.lines) = NonEmpty(OS!Lines(b.out))
        /\ Core(a.m) = Core(b)
+       /\ MsgsLook(a) = Pending(b)
+       /\ Cardinality({i \in DOMAIN a.got : a.got[i].k = "E"}) <= 1
+
+\* a handler leaves nothing pending after a continue; an error that is pending stops the story
+MessagesOnce ==
+  /\ h.m.err # "" => ~H!CanContinue(h)
+  /\ LET c == ContD(h) IN
+     /\ (h.handler /\ H!CanContinue(h)) => (c.h.m.err = "" /\ c.h.m.warns = <<>>)
+     \* a statement that fails is not executed ahead of its line: the continue that fails has no finished line to show
+     \* (the line before the failing statement was delivered by a continue of its own that succeeded)
+     /\ (h.m.err = "" /\ c.h.m.err \notin {"", "out"}) => ~OS!EndsInNewline(c.h.m.out)
+     /\ ~h.handler => (c.msgs = <<>> /\ Len(c.h.m.warns) >= Len(h.m.warns) /\ (h.m.err # "" => c.h.m.err = h.m.err))
 
 SwitchAwayAndBack ==
   \A f \in {"f1", "f2"} \ {h.cur} : H!SwitchFlow(H!SwitchFlow(h, f).h, h.cur).h.m = h.m
@@ -84,9 +108,10 @@ SaveLoadIdentity ==
   \A op \in {"cont", "reset", "jump"} :
      LET t == CASE op = "cont" -> Cont(s) [] op = "reset" -> H!Reset(s).h [] OTHER -> H!ChoosePath(s, "k0", TRUE).h
          r == H!Load(t, "mc").h IN
-     r.m = h.m /\ r.cur = h.cur /\ r.others = h.others
+     \* (messages are not part of a save: those pending at the load stay)
+     r.m = [h.m EXCEPT !.err = t.m.err, !.warns = t.m.warns] /\ r.cur = h.cur /\ r.others = h.others
 
-ResetIsInitial == LET r == H!Reset(h).h IN r.m = S!Start /\ r.cur = H!DefaultFlow /\ r.others = <<>> /\ r.obs = h.obs
+ResetIsInitial == LET r == H!Reset(h).h IN r.m = S!Start /\ r.cur = H!DefaultFlow /\ r.others = <<>> /\ r.obs = h.obs /\ r.handler = h.handler
 
 RefusedIsNoOp ==
   /\ H!Choose(h, 9).h = h /\ H!SetVar(h, "nosuch", S!I(1)).h = h /\ H!ChoosePath(h, "nosuch", TRUE).h = h
@@ -107,7 +132,9 @@ Call ==
   \/ h' = H!Save(h, "a").h
   \/ h' = H!Load(h, "a").h
   \/ h' = H!Reset(h).h
-  \/ \E v \in {P.globals[1].n} : h' = H!SetVar(h, v, S!I(5)).h
+  \/ h' = H!SetVar(h, P.globals[1].n, S!I(5)).h
+  \/ \E i \in DOMAIN P.globals : P.globals[i].v.t = "int" /\ h' = H!SetVar(h, P.globals[i].n, S!I(0)).h
+  \/ h' = H!SetHandler(h).h
 
 Next == n < MaxCalls /\ Call /\ n' = n + 1
 
